@@ -37,9 +37,18 @@ def shrink(req):
             yield "\t".join(f[:3] + [" ;; ".join(lines[:i] + lines[i + 1:])])
         if f[2]:
             yield "\t".join(f[:2] + ["", f[3]])
-    # C18.cross requests are (seed, variant): the generator owns the structure; try the plain variant
-    if f[0] == "C18.cross" and len(f) >= 3 and f[2] != "plain" and not f[2].startswith("reserved"):
-        yield "\t".join([f[0], f[1], "plain", "", "", ""])
+    # C18.cross requests are (seed, variant~drops): drop helpers, statics, pipelines and resources of the generated
+    # program one at a time (indices refer to the originally generated program), then try the plain variant
+    if f[0] == "C18.cross" and len(f) >= 3:
+        variant, _, drops = f[2].partition("~")
+        have = [d for d in drops.split(".") if d]
+        nres = 8
+        cands = ["h", "s"] + [f"p{i}" for i in range(4)] + [f"r{i}" for i in range(nres)]
+        for c in cands:
+            if c not in have:
+                yield "\t".join([f[0], f[1], variant + "~" + ".".join(have + [c]), "", "", ""])
+        if variant != "plain" and not variant.startswith("reserved"):
+            yield "\t".join([f[0], f[1], "plain" + ("~" + drops if drops else ""), "", "", ""])
 
 
 def search(ctx):
@@ -47,7 +56,7 @@ def search(ctx):
     define / test / expand one macro under every directive"""
     out = []
     variants = ["plain", "state", "pp-guard", "pp-macros", "pp-version", "unbounded", "reserved-matrix", "reserved-cb",
-                "e-pp-if", "e-parse-mid", "e-type-undef-mid", "e-pipe-entry"]
+                "e-pp-if", "e-parse-mid", "e-type-undef-mid", "e-pipe-entry", "layout-trap", "include", "api-define"]
     for seed in range(1, 40):
         for v in variants:
             out.append(f"C18.cross\t{seed * 7919}\t{v}\t\t\t")
@@ -68,7 +77,9 @@ SPEC = {
     "theorems": [T + n for n in [
         "unmentioned_define_irrelevant", "target_dependent_names", "frontend_target_independent",
         "target_reads_covered", "targets_share_front_end",
+        "expand_fuel_irrelevant",
         "build_shape_as_modelled", "dx_vk_same_stage_reports", "all_targets_same_stage_kinds_sizes",
+        "dx_vk_declarations_differ_only_in_annotations_partial", "dx_register_vk_binding",
         "descriptor_tables_equal", "kind_count_from_declaration", "binding_kinds_counts_shared",
         "binding_names_kinds_counts_shared_partial", "binding_names_not_shared"]],
     "harness": "c18",
@@ -77,9 +88,10 @@ SPEC = {
     "shrink": shrink,
     "search": search,
     "rule": "generated shader files (progen: up to 7 resources of 18 kinds incl. arrays, static samplers, bindless, bind groups; "
-            "helper call graphs; 1-4 pipelines compute / vertex+pixel / mesh+pixel / task+mesh) in 34 variants (accepted: plain, "
+            "helper call graphs; 1-4 pipelines compute / vertex+pixel / mesh+pixel / task+mesh) in 40 variants (accepted: plain, "
             "explicit pipeline state, include guards, object-like macros, #if __HLSL_VERSION, dead garbage in #if 0, unbounded "
-            "array, resources named like HLSL/MSL reserved words; rejected: 20 injected lexer / preprocessor / parser / type / "
+            "array, resources named like HLSL/MSL reserved words, declarations in an included file, API-level defines, a struct "
+            "whose layouts differ between HLSL and Metal; rejected: 20 injected lexer / preprocessor / parser / type / "
             "pipeline errors at the top, middle and end of the file), none mentioning RSSL_TARGET_*, each compiled for "
             "{dx, vk, vk+buffer-address, msl} and compared by an oracle written in the property's words; plus generated "
             "object-like-macro / conditional-directive programs run through the real preprocessor with each target's observed "
@@ -96,9 +108,12 @@ SPEC = {
                   "stage kinds and sizes; (4) both back ends' ObjectType->DescriptorType tables are extracted and proved equal, "
                   "descriptor kind/count are proved to be functions of the declaration alone, and the compared part of the "
                   "reflection (static samplers and buffer addresses aside) is proved equal for any declaration list and any two "
-                  "parameter sets. Not proved: that the HLSL generator's output for dx and vk differs only in annotations "
-                  "(tested token-for-token by the harness), function-like macros / ## / #include (C12's model), and the name "
-                  "reported for a binding (the two back ends take it from different places: see known finding).",
+                  "parameter sets. Partial: that the HLSL output for dx and vk differs only in annotations is proved "
+                  "for a thin model of the extern global / cbuffer declarations only (the harness compares the real sources "
+                  "token for token after erasing `: register(..)` and `[[vk::..]]`); binding *names* are shared only when the "
+                  "HLSL name map keeps them - the full statement is false on the current code and its negation is proved with "
+                  "a witness (`binding_names_not_shared`, replayed as a known finding). Not modelled: function-like macros / ## / "
+                  "#include (C12's model; exercised by the harness variants include / pp-macros / ctl-concat).",
     "trusted_base": [
         "Lean 4.33 kernel; axioms propext / Classical.choice / Quot.sound only",
         "tools/gens/c18.py: regex facts about compile()/build_pipeline, the define list, the inventories of target / flag "
